@@ -227,7 +227,7 @@ func guardedByNil(blk *ssa.BasicBlock, v ssa.Value, wantNonNil bool) bool {
 			continue
 		}
 		x, nn, ok := nilTest(cond)
-		if !ok || !sameValue(x, v) {
+		if !ok || !(sameValue(x, v) || reloadUnchanged(x, v)) {
 			continue
 		}
 		succ := nn
@@ -237,6 +237,146 @@ func guardedByNil(blk *ssa.BasicBlock, v ssa.Value, wantNonNil bool) bool {
 		if edgeDominates(b, succ, blk) {
 			return true
 		}
+	}
+	return false
+}
+
+// reloadUnchanged: first and second are two loads, in one function, of the same member of the same object (a member of a record
+// that is read again instead of being kept in a local), and nothing that executes between the first load and the second can write
+// that member: no store to that member of any object of the type, no store through a pointer that may address it, and no call
+// other than builtins and repository functions that (transitively, statically) contain no such store.
+func reloadUnchanged(first, second ssa.Value) bool {
+	la, ok1 := stripIdentity(first).(*ssa.UnOp)
+	lb, ok2 := stripIdentity(second).(*ssa.UnOp)
+	if !ok1 || !ok2 || la == lb || la.Op != token.MUL || lb.Op != token.MUL {
+		return false
+	}
+	fa, ok1 := la.X.(*ssa.FieldAddr)
+	fb, ok2 := lb.X.(*ssa.FieldAddr)
+	if !ok1 || !ok2 || fa.Field != fb.Field || !types.Identical(fa.X.Type(), fb.X.Type()) || stripIdentity(fa.X) != stripIdentity(fb.X) {
+		return false
+	}
+	if la.Parent() == nil || la.Parent() != lb.Parent() || la.Block() == nil || lb.Block() == nil {
+		return false
+	}
+	hazard := func(ins ssa.Instruction) bool { return mayWriteMember(ins, fa, 0, map[*ssa.Function]bool{}) }
+	idx := func(b *ssa.BasicBlock, i ssa.Instruction) int {
+		for k, x := range b.Instrs {
+			if x == i {
+				return k
+			}
+		}
+		return -1
+	}
+	ba, bb := la.Block(), lb.Block()
+	ia, ib := idx(ba, la), idx(bb, lb)
+	if ia < 0 || ib < 0 {
+		return false
+	}
+	if ba == bb {
+		if ia > ib {
+			return false
+		}
+		for _, ins := range ba.Instrs[ia+1 : ib] {
+			if hazard(ins) {
+				return false
+			}
+		}
+		return true
+	}
+	if !ba.Dominates(bb) {
+		return false
+	}
+	for _, ins := range ba.Instrs[ia+1:] {
+		if hazard(ins) {
+			return false
+		}
+	}
+	// the blocks on a path from the first load's block to the second's that does not pass the first load again
+	fwd := map[*ssa.BasicBlock]bool{}
+	stack := append([]*ssa.BasicBlock{}, ba.Succs...)
+	for len(stack) > 0 {
+		x := stack[len(stack)-1]
+		stack = stack[:len(stack)-1]
+		if fwd[x] || x == ba {
+			continue
+		}
+		fwd[x] = true
+		stack = append(stack, x.Succs...)
+	}
+	bwd := map[*ssa.BasicBlock]bool{}
+	stack = append(stack[:0], bb.Preds...)
+	for len(stack) > 0 {
+		x := stack[len(stack)-1]
+		stack = stack[:len(stack)-1]
+		if bwd[x] || x == ba {
+			continue
+		}
+		bwd[x] = true
+		stack = append(stack, x.Preds...)
+	}
+	for x := range fwd {
+		if !bwd[x] {
+			continue
+		}
+		// (the second load's block is in bwd only when it lies on a cycle: then all of it can run before the load)
+		for _, ins := range x.Instrs {
+			if hazard(ins) {
+				return false
+			}
+		}
+	}
+	for _, ins := range bb.Instrs[:ib] {
+		if hazard(ins) {
+			return false
+		}
+	}
+	return true
+}
+
+// mayWriteMember: executing ins can change the member that fa addresses (in any object of that type).
+func mayWriteMember(ins ssa.Instruction, fa *ssa.FieldAddr, depth int, seen map[*ssa.Function]bool) bool {
+	switch x := ins.(type) {
+	case *ssa.Store:
+		switch a := x.Addr.(type) {
+		case *ssa.FieldAddr:
+			return a.Field == fa.Field && types.Identical(a.X.Type(), fa.X.Type())
+		case *ssa.Alloc, *ssa.Global:
+			return false
+		case *ssa.IndexAddr:
+			return false // an element of a list or array, not a member of a record
+		}
+		// through a pointer of unknown origin: only if it can point at a value of the member's type
+		if pt, ok := x.Addr.Type().Underlying().(*types.Pointer); ok {
+			if mt, ok := fa.Type().Underlying().(*types.Pointer); ok {
+				return types.Identical(pt.Elem(), mt.Elem())
+			}
+		}
+		return true
+	case *ssa.MapUpdate, *ssa.Send:
+		return false
+	case *ssa.Go, *ssa.Defer:
+		return true
+	case *ssa.Call:
+		if _, isB := x.Call.Value.(*ssa.Builtin); isB {
+			return false
+		}
+		g := x.Call.StaticCallee()
+		if g == nil || len(g.Blocks) == 0 || depth > 4 {
+			return true
+		}
+		if seen[g] {
+			return false
+		}
+		seen[g] = true
+		for _, b := range g.Blocks {
+			for _, i2 := range b.Instrs {
+				if mayWriteMember(i2, fa, depth+1, seen) {
+					return true
+				}
+			}
+		}
+		return false
 	}
 	return false
 }
